@@ -59,7 +59,13 @@ impl Check for Thresholds {
     type Cfg = Cfg;
     type Step = Step;
     fn id(&self) -> &'static str { "thresholds" }
-    fn runs(&self, tier: Tier) -> u64 { if tier == Tier::Quick { 500 } else { 40_000 } }
+    fn runs(&self, tier: Tier) -> u64 {
+        if tier == Tier::Quick {
+            8000
+        } else {
+            200000
+        }
+    }
     fn components(&self) -> serde_json::Value { serde_json::json!({"real": ["examples/multisig-smart-account/threshold-policy (from source)", "policies::{simple_threshold, weighted_threshold}::*"], "stub": ["Acct forwarder standing in for the smart account"]}) }
     fn clock_step(&self, n: u32) -> Option<Step> {
         Some(Step::Wait { n })
